@@ -22,5 +22,7 @@ C17_Inverse == tps > 0 => LET r == ImplAdd(ref, ImplOffset(t, ref, tps), tps)
 C17_Refuse  == LET r == ImplAdd(ref, off, tps) IN
                IF AbsAddRefused(ref, off, tps) THEN r.refused /\ r.ts = ref
                ELSE (Inst(ref, tps) + off <= MaxW) => (~r.refused /\ r.ts = AbsAdd(ref, off, tps) /\ Normalised(r.ts, tps))
+(* no offset whatever makes the addition undefined (the reader adds offsets from the input to instants from the input) *)
+C17_NoUB    == ~ImplAdd(ref, off, tps).ub
 C17_Order   == tps > 0 => ((t.s < ref.s \/ (t.s = ref.s /\ t.t < ref.t)) <=> Inst(t, tps) < Inst(ref, tps))
 =============================================================================
